@@ -659,7 +659,13 @@ class BasePlaceholderManager(MpfController):
             self._eval_methods[ast.Constant] = self._eval_constant
 
     def _eval_tuple(self, node, variables, subscribe):
-        return tuple([self._eval(x, variables, subscribe) for x in node.elts])
+        values = []
+        subscription = []
+        for element in node.elts:
+            value, element_subscription = self._eval(element, variables, subscribe)
+            values.append(value)
+            subscription = subscription + element_subscription
+        return tuple(values), subscription
 
     @staticmethod
     def _parse_template(template_str):
